@@ -84,6 +84,10 @@ func (w *WalletManager) constructTxIn(inputs []*TxIn, lockTime uint64) (*wire.Ms
 			return nil, nil, massutil.ZeroAmount(), ErrInvalidParameter
 		}
 
+		if int(txIn.PreviousOutPoint.Index) >= len(prevTx.TxOut) {
+			logging.CPrint(logging.ERROR, "output index out of range", logging.LogFormat{"index": input.Vout})
+			return nil, nil, massutil.ZeroAmount(), ErrInvalidIndex
+		}
 		prevTxOut := prevTx.TxOut[txIn.PreviousOutPoint.Index]
 		pks, err := utils.ParsePkScript(prevTxOut.PkScript, w.chainParams)
 		if err != nil {
@@ -94,10 +98,21 @@ func (w *WalletManager) constructTxIn(inputs []*TxIn, lockTime uint64) (*wire.Ms
 		if err != nil {
 			return nil, nil, massutil.ZeroAmount(), ErrNoAddressInWallet
 		}
+		var prevHeight uint64
+		if block != nil {
+			prevHeight = block.Height
+		} else {
+			// unconfirmed previous transaction: it can only be mined above the tip
+			syncHeight, err := w.SyncedTo()
+			if err != nil {
+				return nil, nil, massutil.ZeroAmount(), err
+			}
+			prevHeight = syncHeight + 1
+		}
 		switch {
 		case pks.IsStaking():
 			txIn.Sequence = pks.Maturity()
-		case pks.IsBinding() && forks.EnforceMASSIP0002WarmUp(block.Height):
+		case pks.IsBinding() && forks.EnforceMASSIP0002WarmUp(prevHeight):
 			txIn.Sequence = consensus.MASSIP0002BindingLockedPeriod
 		default:
 		}
